@@ -27,6 +27,7 @@ RULE = (
     "equal the blocks of read(); read_vector_raw inside a block equals read(); the mismatch list includes the same rate written "
     "as a different fraction (2n/2d). Non-trivial: a restart landing inside or before existing data, or a refusal followed by a later "
     "valid write."
+    ' Environment of a history: channel path length (150-600 characters) and grammar-like directory names, current directory inside the channel / top directory, relative and decorated path spellings (with a change of directory before reads), one reader kept open over the whole history (polling queries), refused calls repeated 40 times with few file descriptors to spare, finalized files turned into symbolic links, the properties file regenerated or emptied between sessions.'
 )
 ASSUMPTIONS = ["one session is open at a time", "overlay build against system HDF5 1.10.8"]
 FLOORS = {"nontrivial": 0.25}
